@@ -126,7 +126,7 @@ pub fn build(base: &Module, salt: u64) -> Scenario {
     let mut main = lit.clone();
     let assigns = introduce_references(&mut main, &mut r, 60, "");
     let n_sib = 1 + r.below(3) as usize;
-    let negative_kind = if assigns.is_empty() { 0 } else { r.below(9) }; // 0..3 positive
+    let negative_kind = if assigns.is_empty() { 0 } else { r.below(11) }; // 0..3 positive
     let mut sib_assigns: Vec<Vec<ValueAssign>> = vec![Vec::new(); n_sib];
     let mut placement = Vec::new();
     let mut local_before = Vec::new();
@@ -202,15 +202,24 @@ pub fn build(base: &Module, salt: u64) -> Scenario {
                 siblings[k].oid = None;
                 negative = Some(format!("exporter-not-loaded:{}", victim.name));
             }
-            7 | 8 if matches!(victim.ty, ValueType::Integer) => {
-                // a BOOLEAN / string where an integer is needed
-                let replace = |v: &mut ValueAssign| {
-                    if negative_kind == 7 {
+            7 | 8 | 9 | 10 if matches!(victim.ty, ValueType::Integer) => {
+                // a BOOLEAN / character string / hstring / bstring where an integer is needed
+                let replace = |v: &mut ValueAssign| match negative_kind {
+                    7 => {
                         v.ty = ValueType::Boolean;
                         v.lit = Lit::Bool(true);
-                    } else {
+                    }
+                    8 => {
                         v.ty = ValueType::Str(Charset::Utf8);
                         v.lit = Lit::Str("seven".into());
+                    }
+                    9 => {
+                        v.ty = ValueType::OctetString;
+                        v.lit = Lit::Hex(vec![0x0A]);
+                    }
+                    _ => {
+                        v.ty = ValueType::BitString;
+                        v.lit = Lit::Bin(vec![false, false, false, false, true, false, true, false]);
                     }
                 };
                 let used_as_number = {
@@ -240,7 +249,7 @@ pub fn build(base: &Module, salt: u64) -> Scenario {
     Scenario { texts, main_name: "Main-Unit".into(), literal, negative, sites_replaced: assigns.len(), placement }
 }
 
-const RULE: &str = "a literal-only module A (roundtrip profile, proptest) is turned into a referencing variant: a random subset of its literal sites (INTEGER bounds, SIZE bounds, DEFAULT values of INTEGER / BOOLEAN / strings) is replaced by fresh value references whose assignments are placed before the use, after the use, or in one of 1..3 sibling modules imported by name only, by OID only (the name in the import differs) or by both; every load order of all modules into MultiModuleResolver (and Model::try_resolve when there is only one module). Oracle: the resolved definitions of the referencing module == those of the literal module (asn1rs's own PartialEq) for every load order. Negative variants (must give Err for every load order): assignment missing everywhere; import removed while a same-named assignment exists in a loaded, non-imported sibling; exporting module not loaded; BOOLEAN / string assigned where a range or size bound needs an integer. Non-trivial: >= 1 site replaced; distinct = hash of (texts, negative kind).";
+const RULE: &str = "a literal-only module A (roundtrip profile, proptest) is turned into a referencing variant: a random subset of its literal sites (INTEGER bounds, SIZE bounds, DEFAULT values of INTEGER / BOOLEAN / strings) is replaced by fresh value references whose assignments are placed before the use, after the use, or in one of 1..3 sibling modules imported by name only, by OID only (the name in the import differs) or by both; every load order of all modules into MultiModuleResolver (and Model::try_resolve when there is only one module). Oracle: the resolved definitions of the referencing module == those of the literal module (asn1rs's own PartialEq) for every load order. Negative variants (must give Err for every load order): assignment missing everywhere; import removed while a same-named assignment exists in a loaded, non-imported sibling; exporting module not loaded; BOOLEAN / character string / hstring / bstring value assigned where a range or size bound needs an integer. Non-trivial: >= 1 site replaced; distinct = hash of (texts, negative kind).";
 
 pub fn run(ctx: Ctx) -> i32 {
     let report = Report::new(ctx.clone(), RULE);
